@@ -199,41 +199,79 @@ func buildUniverse(s Shape) *universe {
 			}
 		}
 	}
-	for name := range full {
-		if !strings.HasSuffix(strings.TrimSuffix(name, ".zst"), ".kv") {
-			continue
-		}
-		parts := strings.Split(name, "/") // tag/<hash>/states/<end>-<start>.kv.zst
+	// files a segment job writes when it runs to completion: every (stage, segment) job that contributed a file to the
+	// complete run is re-run alone on a copy of the cache without the files that end inside its segment. This adds (a) the
+	// partial snapshots (the job finds no full snapshot and leaves its partial) and (b) the files the complete run may or
+	// may not contain: tier1 ends the request as soon as the output stream and the stores are complete and cancels the
+	// jobs still running, so a last-segment job can be stopped between writing the output module's file and writing the
+	// files of its other modules (an index, an intermediate map) - their presence after a clean run depends on timing.
+	// Both kinds belong to the universe whatever the timing of this one clean run was, which also keeps masks stable.
+	type job struct {
+		stage    int
+		segStart uint64
+	}
+	jobs := map[job]bool{}
+	rangeOf := func(name string) (lo, hi uint64, kind string, ok bool) {
+		parts := strings.Split(name, "/") // tag/<hash>/{states,outputs,index}/<a>-<b>.<ext>[.zst]
 		if len(parts) != 4 {
+			return 0, 0, "", false
+		}
+		var x, y uint64
+		if n, _ := fmt.Sscanf(parts[3], "%010d-%010d", &x, &y); n != 2 {
+			return 0, 0, "", false
+		}
+		if parts[2] == "states" {
+			return y, x, "states", true // <end>-<start>
+		}
+		return x, y, parts[2], true // <start>-<end>
+	}
+	for name := range full {
+		lo, hi, _, ok := rangeOf(name)
+		parts := strings.Split(name, "/")
+		if !ok || hi == 0 || hi <= lo {
 			continue
 		}
-		var end, init uint64
-		fmt.Sscanf(parts[3], "%010d-%010d", &end, &init)
-		segStart := end - s.Seg
-		if end%s.Seg != 0 {
+		st, known := stageOf[parts[1]]
+		if !known {
 			continue
 		}
-		if init > segStart {
-			segStart = init
+		jobs[job{st, (hi - 1) / s.Seg * s.Seg}] = true
+	}
+	var jobList []job
+	for j := range jobs {
+		jobList = append(jobList, j)
+	}
+	sort.Slice(jobList, func(a, b int) bool {
+		if jobList[a].segStart != jobList[b].segStart {
+			return jobList[a].segStart < jobList[b].segStart
 		}
+		return jobList[a].stage < jobList[b].stage
+	})
+	for _, j := range jobList {
 		d2 := sysrun.Scratch("c07part")
 		keep := map[string]bool{}
 		for n := range full {
-			if n != name {
-				keep[n] = true
+			_, hi, _, ok := rangeOf(n)
+			if ok && hi > j.segStart && hi <= j.segStart+s.Seg {
+				continue
 			}
+			keep[n] = true
 		}
 		sysrun.CopyTree(dir, d2, keep)
 		cfg := cfgFor(s, u.prog, d2)
 		ctx := reqctx.WithLogger(context.Background(), nopLogger())
 		ctx = reqctx.WithTier2RequestParameters(ctx, sysrun.Tier2Params(&cfg))
 		details := &reqctx.RequestDetails{Modules: u.prog.Modules, OutputModule: u.prog.Output, ProductionMode: true}
-		req := work.NewRequest(ctx, details, stageOf[parts[1]], (end-1)/s.Seg*s.Seg)
+		req := work.NewRequest(ctx, details, j.stage, j.segStart)
 		if err := sysrun.RunTier2(ctx, &cfg, req, nil); err == nil {
 			for n, b := range readAll(d2) {
-				if strings.HasSuffix(strings.TrimSuffix(n, ".zst"), ".partial") {
-					u.content[n] = b
+				if _, have := u.content[n]; have {
+					continue
 				}
+				if _, have := u.always[n]; have || strings.Contains(n, "substreams.partial.spkg") {
+					continue
+				}
+				u.content[n] = b
 			}
 		}
 		os.RemoveAll(d2)
@@ -411,7 +449,7 @@ func Run(ctx *core.Ctx) int {
 	if !ex {
 		ctx.Cov["capped_shapes"] = capped
 	}
-	ctx.Cov["rule"] = fmt.Sprintf("per (program, request shape): U = files of a complete run on an empty cache + the partial store files each segment job leaves when run alone; every subset of U (all 2^n for n <= %d, the first 2^%d subsets in Gray-code order beyond) is laid out as the initial cache and the request is served on it; deviation <= 1: one file additionally present as a half-written <name>.<rand>.tmp leftover, next to or instead of the complete file. Oracle: the request completes; its stream equals the empty-cache run's; every file left behind has the name of a file of U and decodes (zstd, then store/exec-out/index codec) to the same content; no other file appears. Non-trivial: the subset is neither empty nor complete.", maxFiles, maxFiles)
+	ctx.Cov["rule"] = fmt.Sprintf("per (program, request shape): U = files of a complete run on an empty cache + every file each of its segment jobs writes when run alone to completion without the files of its segment (partial snapshots; files of non-output modules that a clean run may or may not contain because tier1 cancels running jobs when the stream is complete); every subset of U (all 2^n for n <= %d, the first 2^%d subsets in Gray-code order beyond) is laid out as the initial cache and the request is served on it; deviation <= 1: one file additionally present as a half-written <name>.<rand>.tmp leftover, next to or instead of the complete file. Oracle: the request completes; its stream equals the empty-cache run's; every file left behind has the name of a file of U and decodes (zstd, then store/exec-out/index codec) to the same content; no other file appears. Non-trivial: the subset is neither empty nor complete.", maxFiles, maxFiles)
 	ctx.Assume = []string{
 		"'equivalent to a clean run' is read as: no file differs from the clean run's file of the same name (a request that finds a later snapshot need not re-create earlier ones)",
 		"files do not disappear during the request",
